@@ -119,5 +119,566 @@ theorem root_max {cmp : Nat → Nat → Int} (tp : TotalPreorder cmp) (b : Buf N
     · have hp := parent_lt j (by omega)
       exact tp.trans _ _ _ (ih _ hp (by omega)) (h j hj (by omega))
 
+
+/-! ## sift-up -/
+
+/-- heap order everywhere except between `i` and its parent; the children of `i` do not beat the
+parent of `i` -/
+def HeapUp (cmp : Nat → Nat → Int) (b : Buf Nat) (n i : Nat) : Prop :=
+  (∀ j, j < n → 0 < j → j ≠ i → 0 ≤ cmp (b.get (ccParent j)) (b.get j)) ∧
+  (0 < i → ∀ c, c < n → 0 < c → ccParent c = i → 0 ≤ cmp (b.get (ccParent i)) (b.get c))
+
+theorem siftUp_spec {cmp : Nat → Nat → Int} (tp : TotalPreorder cmp) (n : Nat) :
+    ∀ (i : Nat) (b : Buf Nat) (m : Mem), i < n → n ≤ b.length → HeapUp cmp b n i →
+      HeapOrd cmp (siftUp cmp b i m).1 n ∧ (siftUp cmp b i m).1.length = b.length ∧
+      ((siftUp cmp b i m).1.firstN n).Perm (b.firstN n) ∧ (siftUp cmp b i m).2 = m := by
+  intro i
+  induction i using Nat.strongRecOn with
+  | _ i ih =>
+    intro b m hi hn hu
+    rw [siftUp]
+    by_cases hc : i ≠ 0 ∧ cmp (b.get i) (b.get (ccParent i)) > 0
+    · rw [dif_pos hc]
+      have hi0 : 0 < i := by omega
+      have hp := parent_lt i hi0
+      have hgs : ∀ k, (swap b i (ccParent i)).get k =
+          if k = ccParent i then b.get i else if k = i then b.get (ccParent i) else b.get k :=
+        fun k => get_swap b i (ccParent i) k (by omega) (by omega)
+      have hcheck : (m.check (decide (i < b.length))) = m := by
+        have : i < b.length := by omega
+        simp [this]
+      rw [hcheck]
+      have hup : HeapUp cmp (swap b i (ccParent i)) n (ccParent i) := by
+        constructor
+        · intro j hj hj0 hjp
+          rw [hgs (ccParent j), hgs j]
+          by_cases hji : j = i
+          · subst hji
+            have : ¬ j = ccParent j := by omega
+            simp only [if_true, this, if_false]
+            omega
+          · simp only [hjp, hji, if_false]
+            by_cases h1 : ccParent j = ccParent i
+            · simp only [h1, if_true]
+              have e1 := hu.1 j hj hj0 hji
+              rw [h1] at e1
+              exact tp.trans _ _ _ (by omega) e1
+            · simp only [h1, if_false]
+              by_cases h2 : ccParent j = i
+              · simp only [h2, if_true]
+                exact hu.2 hi0 j hj hj0 h2
+              · simp only [h2, if_false]
+                exact hu.1 j hj hj0 hji
+        · intro hp0 c hcn hc0 hcp
+          have hpp := parent_lt (ccParent i) hp0
+          rw [hgs (ccParent (ccParent i)), hgs c]
+          have a1 : ¬ ccParent (ccParent i) = ccParent i := by omega
+          have a2 : ¬ ccParent (ccParent i) = i := by omega
+          simp only [a1, a2, if_false]
+          have hpc := parent_lt c hc0
+          have a3 : ¬ c = ccParent i := by omega
+          simp only [a3, if_false]
+          have e2 := hu.1 (ccParent i) (by omega) hp0 (by omega)
+          by_cases hci : c = i
+          · simp only [hci, if_true]; exact e2
+          · simp only [hci, if_false]
+            have e1 := hu.1 c hcn hc0 hci
+            rw [hcp] at e1
+            exact tp.trans _ _ _ e2 e1
+      have := ih (ccParent i) hp (swap b i (ccParent i)) m (by omega) (by simpa using hn) hup
+      refine ⟨this.1, by rw [this.2.1]; simp, ?_, this.2.2.2⟩
+      exact this.2.2.1.trans (firstN_swap b i (ccParent i) n hi (by omega) hn)
+    · rw [dif_neg hc]
+      refine ⟨?_, rfl, List.Perm.refl _, rfl⟩
+      intro j hj hj0
+      show 0 ≤ cmp (b.get (ccParent j)) (b.get j)
+      by_cases hji : j = i
+      · subst hji
+        have : ¬ cmp (b.get j) (b.get (ccParent j)) > 0 := by
+          intro h; exact hc ⟨by omega, h⟩
+        exact tp.flip _ _ (by omega)
+      · exact hu.1 j hj hj0 hji
+
+/-! ## sift-down -/
+
+/-- heap order everywhere except between `i` and its children; the children of `i` do not beat the
+parent of `i` -/
+def HeapDown (cmp : Nat → Nat → Int) (b : Buf Nat) (n i : Nat) : Prop :=
+  (∀ j, j < n → 0 < j → ccParent j ≠ i → 0 ≤ cmp (b.get (ccParent j)) (b.get j)) ∧
+  (0 < i → ∀ c, c < n → 0 < c → ccParent c = i → 0 ≤ cmp (b.get (ccParent i)) (b.get c))
+
+/-- `pick` returns the position of a maximal element among `index` and its children inside the heap -/
+theorem pick_max {cmp : Nat → Nat → Int} (tp : TotalPreorder cmp) (b : Buf Nat) (n i : Nat) :
+    0 ≤ cmp (b.get (pick cmp b n i)) (b.get i) ∧
+    (ccLeft i < n → 0 ≤ cmp (b.get (pick cmp b n i)) (b.get (ccLeft i))) ∧
+    (ccRight i < n → 0 ≤ cmp (b.get (pick cmp b n i)) (b.get (ccRight i))) := by
+  unfold pick; dsimp only
+  by_cases h1 : ccLeft i < n ∧ cmp (b.get i) (b.get (ccLeft i)) < 0
+  · have hLi : 0 ≤ cmp (b.get (ccLeft i)) (b.get i) := tp.flip _ _ (by omega)
+    by_cases h2 : ccRight i < n ∧ cmp (b.get (ccLeft i)) (b.get (ccRight i)) < 0
+    · have hRL : 0 ≤ cmp (b.get (ccRight i)) (b.get (ccLeft i)) := tp.flip _ _ (by omega)
+      simp only [h1, h2, and_self, if_true]
+      exact ⟨tp.trans _ _ _ hRL hLi, fun _ => hRL, fun _ => cmp_refl tp _⟩
+    · simp only [h1, h2, and_self, if_true, if_false]
+      refine ⟨hLi, fun _ => cmp_refl tp _, fun hr => ?_⟩
+      have : ¬ cmp (b.get (ccLeft i)) (b.get (ccRight i)) < 0 := fun h => h2 ⟨hr, h⟩
+      omega
+  · by_cases h2 : ccRight i < n ∧ cmp (b.get i) (b.get (ccRight i)) < 0
+    · have hRi : 0 ≤ cmp (b.get (ccRight i)) (b.get i) := tp.flip _ _ (by omega)
+      simp only [h1, h2, and_self, if_true, if_false]
+      refine ⟨hRi, fun hl => ?_, fun _ => cmp_refl tp _⟩
+      have : ¬ cmp (b.get i) (b.get (ccLeft i)) < 0 := fun h => h1 ⟨hl, h⟩
+      exact tp.trans _ _ _ hRi (by omega)
+    · simp only [h1, h2, if_false]
+      refine ⟨cmp_refl tp _, fun hl => ?_, fun hr => ?_⟩
+      · have : ¬ cmp (b.get i) (b.get (ccLeft i)) < 0 := fun h => h1 ⟨hl, h⟩
+        omega
+      · have : ¬ cmp (b.get i) (b.get (ccRight i)) < 0 := fun h => h2 ⟨hr, h⟩
+        omega
+
+theorem heapify_small (cmp : Nat → Nat → Int) (b : Buf Nat) (n i : Nat) (m : Mem) (h : n ≤ 1) :
+    heapify cmp b n i m = (b, m) := by
+  rw [heapify]; simp [h]
+
+theorem heapify_spec {cmp : Nat → Nat → Int} (tp : TotalPreorder cmp) (n : Nat) :
+    ∀ (d i : Nat) (b : Buf Nat) (m : Mem), n - i = d → i < n → n ≤ b.length → HeapDown cmp b n i →
+      HeapOrd cmp (heapify cmp b n i m).1 n ∧ (heapify cmp b n i m).1.length = b.length ∧
+      ((heapify cmp b n i m).1.firstN n).Perm (b.firstN n) ∧ (heapify cmp b n i m).2 = m := by
+  intro d
+  induction d using Nat.strongRecOn with
+  | _ d ih =>
+    intro i b m hd hi hn hdn
+    by_cases hsmall : n ≤ 1
+    · rw [heapify_small cmp b n i m hsmall]
+      refine ⟨?_, rfl, List.Perm.refl _, rfl⟩
+      intro j hj hj0; omega
+    · rw [heapify, if_neg hsmall]
+      dsimp only
+      have hcheck : ∀ m : Mem, m.check (decide (i < b.length) && (!decide (ccLeft i < n) || decide (ccLeft i < b.length)) &&
+          (!decide (ccRight i < n) || decide (ccRight i < b.length))) = m := by
+        intro m
+        have a1 : i < b.length := by omega
+        have a2 : (!decide (ccLeft i < n) || decide (ccLeft i < b.length)) = true := by
+          by_cases h : ccLeft i < n
+          · have : ccLeft i < b.length := by omega
+            simp [h, this]
+          · simp [h]
+        have a3 : (!decide (ccRight i < n) || decide (ccRight i < b.length)) = true := by
+          by_cases h : ccRight i < n
+          · have : ccRight i < b.length := by omega
+            simp [h, this]
+          · simp [h]
+        simp [a1, a2, a3]
+      rw [hcheck]
+      have hpm := pick_max tp b n i
+      have hpc := pick_cases cmp b n i
+      by_cases hbig : pick cmp b n i ≠ i
+      · rw [dif_pos hbig]
+        -- the chosen child
+        have hchild : (pick cmp b n i = ccLeft i ∨ pick cmp b n i = ccRight i) ∧ pick cmp b n i < n := by
+          rcases hpc with h | ⟨h, hl⟩ | ⟨h, hr⟩
+          · exact (hbig h).elim
+          · exact ⟨Or.inl h, by omega⟩
+          · exact ⟨Or.inr h, by omega⟩
+        generalize hg : pick cmp b n i = big at *
+        have hpar : ccParent big = i := by
+          rcases hchild.1 with h | h
+          · rw [h]; exact parent_left i
+          · rw [h]; exact parent_right i
+        have hbi : i < big := by
+          rcases hchild.1 with h | h
+          · rw [h]; exact left_gt i
+          · rw [h]; exact right_gt i
+        have hgs : ∀ k, (swap b i big).get k = if k = big then b.get i else if k = i then b.get big else b.get k :=
+          fun k => get_swap b i big k (by omega) (by omega)
+        have hdown : HeapDown cmp (swap b i big) n big := by
+          constructor
+          · intro j hj hj0 hjp
+            rw [hgs (ccParent j), hgs j]
+            simp only [hjp, if_false]
+            by_cases hjb : j = big
+            · subst hjb
+              have : ¬ j = i := by omega
+              simp only [hpar, if_true]
+              exact hpm.1
+            · simp only [hjb, if_false]
+              by_cases hji : j = i
+              · subst hji
+                have hpj := parent_lt j hj0
+                have a1 : ¬ ccParent j = j := by omega
+                simp only [a1, if_false, if_true]
+                exact hdn.2 hj0 big hchild.2 (by omega) hpar
+              · simp only [hji, if_false]
+                by_cases hpj : ccParent j = i
+                · simp only [hpj, if_true]
+                  rcases child_of i j hj0 hpj with h | h
+                  · rw [h]; exact hpm.2.1 (by omega)
+                  · rw [h]; exact hpm.2.2 (by omega)
+                · simp only [hpj, if_false]
+                  exact hdn.1 j hj hj0 hpj
+          · intro hb0 c hcn hc0 hcp
+            rw [hgs (ccParent big), hgs c]
+            have hcb := parent_lt c hc0
+            have a1 : ¬ i = big := by omega
+            have a2 : ¬ c = big := by omega
+            have a3 : ¬ c = i := by omega
+            simp only [a1, hpar, a2, a3, if_false, if_true]
+            have := hdn.1 c hcn hc0 (by omega)
+            rw [hcp] at this
+            exact this
+        have := ih (n - big) (by omega) big (swap b i big) m rfl hchild.2 (by simpa using hn) hdown
+        refine ⟨this.1, by rw [this.2.1]; simp, ?_, this.2.2.2⟩
+        exact this.2.2.1.trans (firstN_swap b i big n hi hchild.2 hn)
+      · rw [dif_neg hbig]
+        simp only [ne_eq, Decidable.not_not] at hbig
+        rw [hbig] at hpm
+        refine ⟨?_, rfl, List.Perm.refl _, rfl⟩
+        intro j hj hj0
+        by_cases hpj : ccParent j = i
+        · rw [hpj]
+          rcases child_of i j hj0 hpj with h | h
+          · rw [h]; exact hpm.2.1 (by omega)
+          · rw [h]; exact hpm.2.2 (by omega)
+        · exact hdn.1 j hj hj0 hpj
+
+
+/-! ## the operations -/
+
+theorem free_live' (m : Mem) (h : 0 < m.live) : m.free.live = m.live - 1 ∧ m.free.fault = m.fault := by
+  unfold Mem.free
+  have : ¬ m.live = 0 := by omega
+  simp [this]
+
+theorem heapOrd_congr (cmp : Nat → Nat → Int) (b b' : Buf Nat) (n : Nat) (h : ∀ j, j < n → b.get j = b'.get j)
+    (ho : HeapOrd cmp b n) : HeapOrd cmp b' n := by
+  intro j hj hj0
+  have := ho j hj hj0
+  rw [h j hj, h (ccParent j) (by have := parent_lt j hj0; omega)] at this
+  exact this
+
+/-- the growth law never exceeds `CC_MAX_ELEMENTS` (in C the float product converted to `size_t`
+would otherwise be undefined behaviour) -/
+def GrowOk (grow : Nat → Nat) : Prop := ∀ c, grow c ≤ Gen.CC_MAX_ELEMENTS
+
+theorem newCapacity_gt (grow : Nat → Nat) (q : PQueue) (hg : GrowOk grow)
+    (hc : q.capacity ≤ Gen.CC_MAX_ELEMENTS) (hne : q.capacity ≠ Gen.CC_MAX_ELEMENTS) :
+    q.capacity < newCapacity grow q ∧ newCapacity grow q ≤ Gen.CC_MAX_ELEMENTS := by
+  unfold newCapacity; dsimp only
+  have := hg q.capacity
+  split
+  · split
+    · simp only [Gen.CC_MAX_ELEMENTS] at *; omega
+    · exact ⟨by omega, Nat.le_refl _⟩
+  · exact ⟨by omega, this⟩
+
+/-- representation invariant including the bound the library keeps on the capacity -/
+def Inv' (cmp : Nat → Nat → Int) (q : PQueue) : Prop := q.Inv cmp ∧ q.capacity ≤ Gen.CC_MAX_ELEMENTS
+
+/-- `expand_capacity`: either OK with a strictly larger buffer holding the same first `size` slots
+(one block allocated, one freed), or an error with the queue unchanged -/
+theorem expand_spec (cmp : Nat → Nat → Int) (grow : Nat → Nat) (q : PQueue) (m : Mem) (hg : GrowOk grow)
+    (h : Inv' cmp q) (hl : 0 < m.live) :
+    ((expandCapacity grow q m).1 = .ok ∧ Inv' cmp (expandCapacity grow q m).2.1 ∧
+      (expandCapacity grow q m).2.1.size = q.size ∧ q.capacity < (expandCapacity grow q m).2.1.capacity ∧
+      (∀ j, j < q.size → (expandCapacity grow q m).2.1.buf.get j = q.buf.get j) ∧
+      (expandCapacity grow q m).2.2.live = m.live ∧ (expandCapacity grow q m).2.2.fault = m.fault ∧
+      m.alloc.1 = true) ∨
+    (((expandCapacity grow q m).1 = .errAlloc ∧ m.alloc.1 = false) ∨ (expandCapacity grow q m).1 = .errMaxCapacity) ∧
+      (expandCapacity grow q m).2.1 = q ∧ (expandCapacity grow q m).2.2.live = m.live ∧
+      (expandCapacity grow q m).2.2.fault = m.fault := by
+  obtain ⟨⟨h1, h2, h3, h4⟩, h5⟩ := h
+  unfold expandCapacity; dsimp only
+  by_cases hmax : q.capacity = Gen.CC_MAX_ELEMENTS
+  · right; simp [hmax]
+  · simp only [hmax, if_false]
+    have hnc := newCapacity_gt grow q hg h5 hmax
+    cases ha : m.alloc.1
+    · right
+      have := Mem.alloc_fst_false m ha
+      simp [this]
+    · left
+      have ea := Mem.alloc_fst_true m ha
+      have hck : (decide (q.size ≤ q.buf.length) && decide (q.size ≤ newCapacity grow q)) = true := by
+        have a1 : q.size ≤ q.buf.length := by omega
+        have a2 : q.size ≤ newCapacity grow q := by omega
+        simp [a1, a2]
+      simp only [Bool.not_true, Bool.false_eq_true, if_false, hck, Mem.check_true]
+      have hget : ∀ j, j < q.size →
+          ((Buf.mk (newCapacity grow q) : Buf Nat).memcpy 0 q.buf 0 q.size).get j = q.buf.get j := by
+        intro j hj
+        rw [Buf.get_memcpy _ _ _ _ _ _ (by simp; omega)]
+        simp [hj]
+      have hfree := free_live' m.alloc.2 (by rw [ea.1]; omega)
+      refine ⟨trivial, ⟨⟨by dsimp only; omega, by simp, by dsimp only; omega, ?_⟩, hnc.2⟩, trivial, hnc.1, hget, ?_, ?_, trivial⟩
+      · exact heapOrd_congr cmp q.buf _ q.size (fun j hj => (hget j hj).symm) h4
+      · rw [hfree.1, ea.1]; omega
+      · rw [hfree.2, ea.2.1]
+
+
+theorem expand_spec_get (cmp : Nat → Nat → Int) (grow : Nat → Nat) (q : PQueue) (m : Mem) (hg : GrowOk grow)
+    (h : Inv' cmp q) (hl : 0 < m.live) (hok : (expandCapacity grow q m).1 = .ok) :
+    Inv' cmp (expandCapacity grow q m).2.1 ∧
+      (expandCapacity grow q m).2.1.size = q.size ∧ q.capacity < (expandCapacity grow q m).2.1.capacity ∧ True ∧
+      (∀ j, j < q.size → (expandCapacity grow q m).2.1.buf.get j = q.buf.get j) ∧
+      (expandCapacity grow q m).2.2.live = m.live ∧ (expandCapacity grow q m).2.2.fault = m.fault := by
+  rcases expand_spec cmp grow q m hg h hl with ⟨_, e2, e3, e4, e5, e6, e7, _⟩ | ⟨e1, _⟩
+  · exact ⟨e2, e3, e4, trivial, e5, e6, e7⟩
+  · rcases e1 with ⟨e1, _⟩ | e1 <;> rw [e1] at hok <;> cases hok
+
+theorem expand_size (grow : Nat → Nat) (q : PQueue) (m : Mem) : (expandCapacity grow q m).2.1.size = q.size := by
+  unfold expandCapacity; dsimp only
+  split
+  · rfl
+  · split <;> rfl
+
+/-- the part of `cc_pqueue_push` after the capacity test: store at `size`, sift up -/
+def storeSift (cmp : Nat → Nat → Int) (q : PQueue) (x : Nat) (m : Mem) : Stat × PQueue × Mem :=
+  let i := q.size
+  let m := m.check (i < q.buf.length)
+  let buf := q.buf.put i x
+  if i = 0 then (.ok, { q with buf := buf, size := q.size + 1 }, m) else
+  let r := siftUp cmp buf i m
+  (.ok, { q with buf := r.1, size := q.size + 1 }, r.2)
+
+theorem push_eq (cmp : Nat → Nat → Int) (grow : Nat → Nat) (q : PQueue) (x : Nat) (m : Mem) :
+    push cmp grow q x m =
+      if q.size ≥ q.capacity then
+        (if (expandCapacity grow q m).1 != .ok then expandCapacity grow q m
+         else storeSift cmp (expandCapacity grow q m).2.1 x (expandCapacity grow q m).2.2)
+      else storeSift cmp q x m := by
+  unfold push storeSift; dsimp only
+  by_cases hfull : q.size ≥ q.capacity
+  · simp only [hfull, if_true, expand_size]
+  · simp only [hfull, if_false]
+    rfl
+
+theorem storeSift_spec {cmp : Nat → Nat → Int} (tp : TotalPreorder cmp) (q : PQueue) (x : Nat) (m : Mem)
+    (h : Inv' cmp q) (hroom : q.size < q.capacity) :
+    (storeSift cmp q x m).1 = .ok ∧ Inv' cmp (storeSift cmp q x m).2.1 ∧
+    ((storeSift cmp q x m).2.1.abs).Perm (x :: q.abs) ∧ (storeSift cmp q x m).2.1.size = q.size + 1 ∧
+    (storeSift cmp q x m).2.1.capacity = q.capacity ∧ (storeSift cmp q x m).2.2 = m := by
+  obtain ⟨⟨h1, h2, h3, h4⟩, h5⟩ := h
+  have hlen : q.size < q.buf.length := by omega
+  have hget : ∀ j, j < q.size → (q.buf.put q.size x).get j = q.buf.get j := by
+    intro j hj; rw [Buf.get_put_ne _ _ _ _ (by omega)]
+  have hgx : (q.buf.put q.size x).get q.size = x := Buf.get_put_eq _ _ _ hlen
+  have hperm0 : ((q.buf.put q.size x).firstN (q.size + 1)).Perm (x :: q.abs) := by
+    rw [firstN_succ, hgx, firstN_congr _ q.buf q.size hget]
+    exact List.perm_append_comm
+  unfold storeSift; dsimp only
+  simp only [hlen, decide_true, Mem.check_true]
+  by_cases h0 : q.size = 0
+  · simp only [h0, if_true]
+    refine ⟨trivial, ⟨⟨by dsimp only; omega, by simpa using h2, h3, ?_⟩, h5⟩, ?_, trivial, trivial, trivial⟩
+    · intro j hj hj0; dsimp only at hj; omega
+    · simpa [abs, h0] using hperm0
+  · simp only [h0, if_false]
+    have hup : HeapUp cmp (q.buf.put q.size x) (q.size + 1) q.size := by
+      constructor
+      · intro j hj hj0 hjn
+        have hpj := parent_lt j hj0
+        rw [hget j (by omega), hget (ccParent j) (by omega)]
+        exact h4 j (by omega) hj0
+      · intro _ c hc hc0 hcp
+        have := parent_lt c hc0
+        omega
+    have hs := siftUp_spec tp (q.size + 1) q.size (q.buf.put q.size x) m (by omega) (by simp; omega) hup
+    refine ⟨trivial, ⟨⟨by dsimp only; omega, ?_, h3, hs.1⟩, h5⟩, ?_, trivial, trivial, hs.2.2.2⟩
+    · dsimp only; rw [hs.2.1]; simpa using h2
+    · exact hs.2.2.1.trans hperm0
+
+/-- `cc_pqueue_push`: OK, heap order restored, the element joined the multiset; or a refused/
+impossible growth with the whole queue unchanged.  The ledger is balanced either way. -/
+theorem push_spec {cmp : Nat → Nat → Int} (tp : TotalPreorder cmp) (grow : Nat → Nat) (hg : GrowOk grow)
+    (q : PQueue) (x : Nat) (m : Mem) (h : Inv' cmp q) (hl : 0 < m.live) :
+    ((push cmp grow q x m).1 = .ok ∧ Inv' cmp (push cmp grow q x m).2.1 ∧
+      ((push cmp grow q x m).2.1.abs).Perm (x :: q.abs) ∧ (push cmp grow q x m).2.1.size = q.size + 1) ∨
+    ((((push cmp grow q x m).1 = .errAlloc ∧ m.alloc.1 = false) ∨ (push cmp grow q x m).1 = .errMaxCapacity) ∧
+      (push cmp grow q x m).2.1 = q) := by
+  rw [push_eq]
+  by_cases hfull : q.size ≥ q.capacity
+  · simp only [hfull, if_true]
+    rcases expand_spec cmp grow q m hg h hl with ⟨e1, e2, e3, e4, _, _, _, _⟩ | ⟨e1, e2, _, _⟩
+    · have : ((expandCapacity grow q m).1 != .ok) = false := by rw [e1]; rfl
+      simp only [this, Bool.false_eq_true, if_false]
+      have hroom : (expandCapacity grow q m).2.1.size < (expandCapacity grow q m).2.1.capacity := by
+        have := h.1.1; omega
+      have hs := storeSift_spec tp _ x (expandCapacity grow q m).2.2 e2 hroom
+      left
+      refine ⟨hs.1, hs.2.1, ?_, by rw [hs.2.2.2.1, e3]⟩
+      have : (expandCapacity grow q m).2.1.abs = q.abs := by
+        unfold abs; rw [e3]
+        exact firstN_congr _ _ _ (by obtain ⟨_, _, _, _, e5, _⟩ := expand_spec_get cmp grow q m hg h hl e1; exact e5)
+      rw [← this]; exact hs.2.2.1
+    · have : ((expandCapacity grow q m).1 != .ok) = true := by
+        rcases e1 with ⟨e1, _⟩ | e1 <;> rw [e1] <;> rfl
+      simp only [this, if_true]
+      right; exact ⟨e1, e2⟩
+  · simp only [hfull, if_false]
+    have hs := storeSift_spec tp q x m h (by omega)
+    left; exact ⟨hs.1, hs.2.1, hs.2.2.1, hs.2.2.2.1⟩
+
+
+/-- `cc_pqueue_push` keeps the ledger balanced (growth allocates one block and frees one) and never
+touches a slot outside the buffer -/
+theorem push_mem {cmp : Nat → Nat → Int} (tp : TotalPreorder cmp) (grow : Nat → Nat) (hg : GrowOk grow)
+    (q : PQueue) (x : Nat) (m : Mem) (h : Inv' cmp q) (hl : 0 < m.live) :
+    (push cmp grow q x m).2.2.live = m.live ∧ (push cmp grow q x m).2.2.fault = m.fault := by
+  rw [push_eq]
+  by_cases hfull : q.size ≥ q.capacity
+  · simp only [hfull, if_true]
+    rcases expand_spec cmp grow q m hg h hl with ⟨e1, e2, e3, e4, _, e6, e7, _⟩ | ⟨e1, _, e3, e4⟩
+    · have : ((expandCapacity grow q m).1 != .ok) = false := by rw [e1]; rfl
+      simp only [this, Bool.false_eq_true, if_false]
+      have hroom : (expandCapacity grow q m).2.1.size < (expandCapacity grow q m).2.1.capacity := by
+        have := h.1.1; omega
+      have hs := storeSift_spec tp _ x (expandCapacity grow q m).2.2 e2 hroom
+      rw [hs.2.2.2.2.2]; exact ⟨e6, e7⟩
+    · have : ((expandCapacity grow q m).1 != .ok) = true := by
+        rcases e1 with ⟨e1, _⟩ | e1 <;> rw [e1] <;> rfl
+      simp only [this, if_true]
+      exact ⟨e3, e4⟩
+  · simp only [hfull, if_false]
+    have hs := storeSift_spec tp q x m h (by omega)
+    rw [hs.2.2.2.2.2]; exact ⟨rfl, rfl⟩
+
+/-- `cc_pqueue_top` -/
+theorem top_spec {cmp : Nat → Nat → Int} (tp : TotalPreorder cmp) (q : PQueue) (m : Mem) (h : Inv' cmp q) :
+    ((q.abs = [] ∧ q.top m = (.errOutOfRange, none, m)) ∨
+     (∃ x, q.top m = (.ok, some x, m) ∧ Spec.PQ.IsMax cmp q.abs x)) := by
+  obtain ⟨⟨h1, h2, h3, h4⟩, _⟩ := h
+  unfold top
+  by_cases h0 : q.size = 0
+  · left; simp [h0, abs, Buf.firstN]
+  · right
+    have : 0 < q.buf.length := by omega
+    refine ⟨q.buf.get 0, by simp [h0, this], ?_, ?_⟩
+    · exact (mem_firstN _ _ _).2 ⟨0, by omega, rfl⟩
+    · intro y hy
+      obtain ⟨j, hj, rfl⟩ := (mem_firstN _ _ _).1 hy
+      exact root_max tp q.buf q.size h4 j hj
+
+/-- `cc_pqueue_pop` -/
+theorem pop_spec {cmp : Nat → Nat → Int} (tp : TotalPreorder cmp) (q : PQueue) (m : Mem) (h : Inv' cmp q) :
+    ((q.abs = [] ∧ pop cmp q m = (.errOutOfRange, none, q, m)) ∨
+     (∃ x, (pop cmp q m).1 = .ok ∧ (pop cmp q m).2.1 = some x ∧ Spec.PQ.IsMax cmp q.abs x ∧
+        q.abs.Perm (x :: (pop cmp q m).2.2.1.abs) ∧ Inv' cmp (pop cmp q m).2.2.1 ∧
+        (pop cmp q m).2.2.1.size + 1 = q.size ∧ (pop cmp q m).2.2.2 = m)) := by
+  obtain ⟨⟨h1, h2, h3, h4⟩, h5⟩ := h
+  unfold pop
+  by_cases h0 : q.size = 0
+  · left; simp [h0, abs, Buf.firstN]
+  · right
+    have hlen : q.size - 1 < q.buf.length := by omega
+    simp only [h0, if_false, hlen, decide_true, Mem.check_true]
+    have hgs : ∀ k, (swap q.buf 0 (q.size - 1)).get k =
+        if k = q.size - 1 then q.buf.get 0 else if k = 0 then q.buf.get (q.size - 1) else q.buf.get k :=
+      fun k => get_swap q.buf 0 (q.size - 1) k (by omega) hlen
+    have hout : (swap q.buf 0 (q.size - 1)).get (q.size - 1) = q.buf.get 0 := by rw [hgs]; simp
+    have hperm1 : q.abs.Perm (q.buf.get 0 :: (swap q.buf 0 (q.size - 1)).firstN (q.size - 1)) := by
+      have e1 := (firstN_swap q.buf 0 (q.size - 1) q.size (by omega) (by omega) (by omega)).symm
+      have e2 : (swap q.buf 0 (q.size - 1)).firstN q.size =
+          (swap q.buf 0 (q.size - 1)).firstN (q.size - 1) ++ [q.buf.get 0] := by
+        have : q.size = (q.size - 1) + 1 := by omega
+        rw [this, firstN_succ, Nat.add_sub_cancel, hout]
+      rw [e2] at e1
+      exact e1.trans List.perm_append_comm
+    -- the sift-down
+    have hheap : HeapOrd cmp (heapify cmp (swap q.buf 0 (q.size - 1)) (q.size - 1) 0 m).1 (q.size - 1) ∧
+        (heapify cmp (swap q.buf 0 (q.size - 1)) (q.size - 1) 0 m).1.length = q.buf.length ∧
+        ((heapify cmp (swap q.buf 0 (q.size - 1)) (q.size - 1) 0 m).1.firstN (q.size - 1)).Perm
+          ((swap q.buf 0 (q.size - 1)).firstN (q.size - 1)) ∧
+        (heapify cmp (swap q.buf 0 (q.size - 1)) (q.size - 1) 0 m).2 = m := by
+      by_cases hs : q.size - 1 ≤ 1
+      · rw [heapify_small _ _ _ _ _ hs]
+        refine ⟨?_, by simp, List.Perm.refl _, rfl⟩
+        intro j hj hj0; omega
+      · have hdown : HeapDown cmp (swap q.buf 0 (q.size - 1)) (q.size - 1) 0 := by
+          constructor
+          · intro j hj hj0 hpj
+            have hp := parent_lt j hj0
+            rw [hgs j, hgs (ccParent j)]
+            have a1 : ¬ j = q.size - 1 := by omega
+            have a2 : ¬ j = 0 := by omega
+            have a3 : ¬ ccParent j = q.size - 1 := by omega
+            simp only [a1, a2, a3, hpj, if_false]
+            exact h4 j (by omega) hj0
+          · intro h; omega
+        have := heapify_spec tp (q.size - 1) (q.size - 1 - 0) 0 (swap q.buf 0 (q.size - 1)) m rfl (by omega)
+          (by simp; omega) hdown
+        exact ⟨this.1, by rw [this.2.1]; simp, this.2.2.1, this.2.2.2⟩
+    refine ⟨q.buf.get 0, trivial, by rw [hout], ⟨?_, ?_⟩, ?_, ⟨⟨by show q.size - 1 ≤ q.capacity; omega, ?_, h3, hheap.1⟩, h5⟩,
+      by show q.size - 1 + 1 = q.size; omega, hheap.2.2.2⟩
+    · exact (mem_firstN _ _ _).2 ⟨0, by omega, rfl⟩
+    · intro y hy
+      obtain ⟨j, hj, rfl⟩ := (mem_firstN _ _ _).1 hy
+      exact root_max tp q.buf q.size h4 j hj
+    · exact hperm1.trans (List.Perm.cons _ hheap.2.2.1.symm)
+    · dsimp only; rw [hheap.2.1]; exact h2
+
+/-- `cc_pqueue_new_conf`: `hex` says that the (effective, > 1) expansion factor is not below 0 -/
+theorem new_spec (cmp : Nat → Nat → Int) (cap : Nat) (exGe : Nat → Bool) (m : Mem) (hex : exGe 0 = true) :
+    ((new cap exGe m).1 = .errInvalidCapacity ∧ (new cap exGe m).2.1 = none ∧ (new cap exGe m).2.2 = m) ∨
+    ((new cap exGe m).1 = .errAlloc ∧ (new cap exGe m).2.1 = none ∧ (new cap exGe m).2.2.live = m.live ∧
+      (new cap exGe m).2.2.fault = m.fault ∧ 0 < cap) ∨
+    (∃ q, (new cap exGe m).1 = .ok ∧ (new cap exGe m).2.1 = some q ∧ Inv' cmp q ∧ q.abs = [] ∧ q.capacity = cap ∧
+      (new cap exGe m).2.2.live = m.live + 2 ∧ (new cap exGe m).2.2.fault = m.fault) := by
+  unfold new
+  by_cases hbad : (cap = 0 || exGe (Gen.CC_MAX_ELEMENTS / cap)) = true
+  · left; simp [hbad]
+  · right
+    simp only [hbad]
+    simp only [Bool.or_eq_true, decide_eq_true_eq, not_or, Bool.not_eq_true] at hbad
+    have hcap : cap ≤ Gen.CC_MAX_ELEMENTS := by
+      apply Decidable.byContradiction
+      intro hgt
+      have : Gen.CC_MAX_ELEMENTS / cap = 0 := Nat.div_eq_of_lt (by omega)
+      rw [this, hex] at hbad
+      exact absurd hbad.2 (by simp)
+    cases h1 : m.alloc.1
+    · left
+      have := Mem.alloc_fst_false m h1
+      simp [this]; omega
+    · have e1 := Mem.alloc_fst_true m h1
+      cases h2 : m.alloc.2.alloc.1
+      · left
+        have e2 := Mem.alloc_fst_false m.alloc.2 h2
+        simp [Mem.free, e1, e2]; omega
+      · right
+        have e2 := Mem.alloc_fst_true m.alloc.2 h2
+        refine ⟨{ size := 0, capacity := cap, buf := Buf.mk cap }, by simp, by simp,
+          ⟨⟨Nat.zero_le _, by simp, by show 0 < cap; omega, ?_⟩, hcap⟩, by simp [abs, Buf.firstN], rfl, ?_, ?_⟩
+        · intro j hj; exact absurd hj (Nat.not_lt_zero _)
+        · simp [e2.1, e1.1]
+        · simp [e2.2.1, e1.2.1]
+
+/-- popping until empty yields every held element exactly once, in non-increasing priority order -/
+theorem drain_spec {cmp : Nat → Nat → Int} (tp : TotalPreorder cmp) :
+    ∀ (fuel : Nat) (q : PQueue), Inv' cmp q → q.size ≤ fuel →
+      (drain cmp fuel q).Perm q.abs ∧ (drain cmp fuel q).Pairwise (fun a b => 0 ≤ cmp a b) := by
+  intro fuel
+  induction fuel with
+  | zero =>
+    intro q _ hs
+    have : q.size = 0 := by omega
+    simp [drain, abs, this, Buf.firstN]
+  | succ fuel ih =>
+    intro q h hs
+    rcases pop_spec tp q {} h with ⟨e1, e2⟩ | ⟨x, e1, e2, e3, e4, e5, e6, _⟩
+    · simp [drain, e2, e1]
+    · have hd : drain cmp (fuel + 1) q = x :: drain cmp fuel (pop cmp q {}).2.2.1 := by
+        simp only [drain]
+        rcases hp : pop cmp q {} with ⟨st, o, q', m'⟩
+        rw [hp] at e2
+        simp only at e2
+        subst e2
+        rfl
+      rw [hd]
+      have := ih (pop cmp q {}).2.2.1 e5 (by omega)
+      refine ⟨(List.Perm.cons x this.1).trans e4.symm, List.Pairwise.cons ?_ this.2⟩
+      intro y hy
+      have hy' : y ∈ (pop cmp q {}).2.2.1.abs := this.1.mem_iff.1 hy
+      exact e3.2 y (e4.mem_iff.2 (List.mem_cons_of_mem _ hy'))
+
 end PQueue
 end CC
